@@ -156,6 +156,9 @@ def run_C04(ctx):
     _run(ctx, scen, "c04")
     # write side: the transport fails after consuming k bytes of the request, for every k
     sendside(ctx, ("err", "werr", "werr1"))
+    # the handler's view of a request stream whose client failed (a Receive of its own) without closing it
+    from . import p_scalars
+    p_scalars.scalars(ctx, {"recvfail_live"}, [])
     return core.finish(ctx, rule=RULE + "; write side: spec/SendSide.tla, the transport consumes exactly k bytes of "
                        "the request body and fails, for every k and RPC kind; a handler's ResponseWriter that refuses the k-th Write, for every k", exhaustive=True, assumptions=[
         "cut offsets are exhaustive over the abstract frame sizes; compressed and terminator frames are "
